@@ -301,6 +301,8 @@ NEAR_FAMILIES = {
     "tag:ExtInf": ["#EXTINF:1,", "#EXTINF:1.0,", "#EXTINF:1,t", "#EXTINF:1,u", "#EXTINF:2,", "#EXTINF:1.000000001,", "#EXTINF:0,", "#EXTINF:0,t",
                    "#EXTINF:0.999999999,", "#EXTINF:1, ", "#EXTINF:1,1"],
     "type:Resolution": ["1x2", "2x1", "1x1", "2x2", "10x2", "1x20", "12x0", "1x2 "],
+    "type:UFloat": ["0", "-0", "0.0", "-0.0", "-0.000", "+0", "1", "1.0", "1e0", "-1", "0.5", ".5", "1e-46", "-1e-46", "16777217", "16777216"],
+    "type:Float": ["0", "-0", "0.0", "-0.0", "+0", "1", "1.0", "1e0", "-1", "-1.0", "0.5", "-0.5", "1e-46", "-1e-46", "16777217", "16777216"],
     "type:Codecs": ["a", "a,b", "b,a", "a,a", "ab", "b", "a,b,c", "a,bc"],
     "type:Channels": ["6", "2", "16", "0", "1"],
     "type:ClosedCaptions": ["NONE", '"NONE"', '"a"', '"b"', '""'],
@@ -425,8 +427,8 @@ def c19_build(ctx):
         cases.append(mk("cmpkfv", a, C.hx(b), group="kfv", meta={"a": a, "b": b}))
     for a, b in itertools.product(F32_BITS, repeat=2):
         cases.append(mk("cmpf32:Float", a, C.hx(b), group="Float", meta={"a": a, "b": b}))
-    pos = [x for x in F32_BITS if int(x, 16) < 2**31]
-    for a, b in itertools.product(pos, repeat=2):
+    # the negative patterns too: UFloat refuses them (err, skipped) - unless a change lets one in, -0.0 for instance
+    for a, b in itertools.product(F32_BITS, repeat=2):
         cases.append(mk("cmpf32:UFloat", a, C.hx(b), group="UFloat", meta={"a": a, "b": b}))
     for a, b in itertools.product(DK_TEXTS, repeat=2):
         cases.append(mk("cmp:DecryptionKey", a, C.hx(b), group="DecryptionKey", meta={"a": a, "b": b}))
@@ -621,8 +623,9 @@ def c13_render(rng, cfg):
             elif v.get("cc"):
                 l += ',CLOSED-CAPTIONS="%s"' % v["cc"]
             lines.append([l, "v%d.m3u8" % i])
-    for (did, lang) in cfg.get("sd", []):
-        l = '#EXT-X-SESSION-DATA:DATA-ID="%s",VALUE="v"' % did
+    for k, (did, lang) in enumerate(cfg.get("sd", [])):
+        # the payload is not part of the identity of a session-data tag: give every tag its own (VALUE or URI)
+        l = '#EXT-X-SESSION-DATA:DATA-ID="%s",%s' % (did, ('VALUE="v%d"' % k) if k % 2 == 0 else ('URI="u%d"' % k))
         if lang:
             l += ',LANGUAGE="%s"' % lang
         lines.append([l])
@@ -1404,7 +1407,10 @@ def c08_render(segs):
     lines = ["#EXTM3U", "#EXT-X-TARGETDURATION:10"]
     for (uri, kind, n, o, mp) in segs:
         if mp is not None:
-            lines.append('#EXT-X-MAP:URI="init",BYTERANGE="%s"' % mp)
+            # the map of a single-file stream lives in the media file itself: the same URI as the segment, every other time
+            # (a MAP's byte range is the map's business: it never takes part in the segment's continuation)
+            same = (len(lines) + n) % 2 == 0
+            lines.append('#EXT-X-MAP:URI="%s",BYTERANGE="%s"' % (uri if same else "init", mp))
         if kind == "E":
             lines.append("#EXT-X-BYTERANGE:%d@%d" % (n, o))
         elif kind == "I":
@@ -1467,6 +1473,20 @@ def c08_build(ctx):
             cases.append(mk("rt_media", t, group="corpus"))
     for _ in range(ctx.n(500, 5000)):
         cases.append(mk("rt_media", G.gen_media(rng, features=ctx.features)[0], group="generated"))
+    # a MAP with a byte range of the SAME file in front of every kind of segment range
+    for combo in itertools.product([(u, k) for u in ("a.ts", "b.ts") for k in "NEI"], repeat=3):
+        for mpos in range(3):
+            for mp in ("5@0", "7"):
+                text = ["#EXTM3U", "#EXT-X-TARGETDURATION:10"]
+                segs = []
+                for i, (u, k) in enumerate(combo):
+                    if i == mpos:
+                        text.append('#EXT-X-MAP:URI="%s",BYTERANGE="%s"' % (u, mp))
+                    if k == "E": text.append("#EXT-X-BYTERANGE:%d@%d" % (10 * (i + 1), 100 * (i + 1)))
+                    elif k == "I": text.append("#EXT-X-BYTERANGE:%d" % (10 * (i + 1)))
+                    text += ["#EXTINF:1,", u]
+                    segs.append((u, k, 10 * (i + 1), 100 * (i + 1), None))
+                cases.append(mk("rt_media", "\n".join(text) + "\n", group="map-of-the-same-file", meta={"segs": segs}))
     # every pair of look-alike URIs, explicit range then offset-less range, through the three entry points
     look = ["a.ts", "A.ts", "a.TS", "a.ts?", "./a.ts", "a%2Ets", "a.ts#", "a.tsx", "a.t"]
     for u1, u2 in itertools.product(look, repeat=2):
@@ -1711,6 +1731,14 @@ def c15_build(ctx):
             text = "#EXTM3U\n" + "".join(l + "\n" for _, l in combo)
             for op in ("media", "master"):
                 cases.append(mk(op, text, group="exhaustive<=%d" % maxlen, meta={"kinds": kinds, "header": True}))
+    # the first line standing on the header line itself (`#EXTM3U #EXT-X-…`): what follows the header is a line like any other
+    for n in range(1, 3):
+        for combo in itertools.product(C15_LINES, repeat=n):
+            kinds = [k for k, _ in combo]
+            for sep in (" ", "\t", ""):
+                text = "#EXTM3U" + sep + "".join(l + "\n" for _, l in combo)
+                for op in ("media", "master"):
+                    cases.append(mk(op, text, group="on-the-header-line", meta={"kinds": kinds, "header": True}))
     # headerless variants of the short ones
     for n in range(0, 3):
         for combo in itertools.product(C15_LINES, repeat=n):
@@ -2396,8 +2424,16 @@ def c11_static(ctx):
         sites = T.hash_iteration_sites()
     except T.TranslateError as e:
         sites = ["translator: %s" % e]
-    return [{"kind": "corr", "broken": "static tie of C11: a hash collection's iteration order can reach an output", "detail": sites,
-             "what": "hash-order dependence introduced: %s" % "; ".join(sites[:3])}] if sites else []
+    out = [{"kind": "corr", "broken": "static tie of C11: a hash collection's iteration order can reach an output", "detail": sites,
+            "what": "hash-order dependence introduced: %s" % "; ".join(sites[:3])}] if sites else []
+    try:
+        hidden = T.hidden_state_sites()
+    except T.TranslateError as e:
+        hidden = []
+    if hidden:
+        out.append({"kind": "corr", "broken": "static tie of C11: the model's parse is a function of the text alone; the code now keeps state between calls", "detail": hidden,
+                    "what": "state that outlives a call introduced (the result may depend on earlier calls): %s" % "; ".join(hidden[:3])})
+    return out
 
 
 def c11_oracle(ctx, cases, impl, model):
@@ -2482,6 +2518,28 @@ def c17_build(ctx):
     for _ in range(ctx.n(400, 8000)):
         lay = G.Layout(rng)
         cases.append(mk("owned:tag:ExtXDateRange", G.gen_daterange(rng, lay), group="owned:tag"))
+    # a conversion that is ALMOST the identity differs on special values: the families of values one field apart (absent / zero /
+    # default / empty, neighbours) of every type and tag, and keys whose version lists contain zeros
+    for kind, texts in NEAR_FAMILIES.items():
+        name = kind.split(":")[1]
+        if (kind.startswith("tag:") and name in OWNED_TAGS) or (kind.startswith("type:") and name in OWNED_TYPES):
+            for t in texts:
+                cases.append(mk("owned:" + kind, t, group="owned:near"))
+    for v in ['"0"', '"0/0"', '"0/1"', '"1/0"', '"0/0/0/0/0/0/0/0/0"', '"1"', '"1/1"', '"255"']:
+        for pfx, name in (("#EXT-X-KEY:", "ExtXKey"), ("#EXT-X-SESSION-KEY:", "ExtXSessionKey")):
+            cases.append(mk("owned:tag:" + name, pfx + 'METHOD=SAMPLE-AES,URI="k",KEYFORMAT="f",KEYFORMATVERSIONS=' + v, group="owned:near"))
+        cases.append(mk("owned:type:DecryptionKey", 'METHOD=SAMPLE-AES,URI="k",KEYFORMAT="f",KEYFORMATVERSIONS=' + v, group="owned:near"))
+        t = '#EXTM3U\n#EXT-X-TARGETDURATION:10\n#EXT-X-KEY:METHOD=SAMPLE-AES,URI="k",KEYFORMAT="f",KEYFORMATVERSIONS=%s\n#EXT-X-MAP:URI="i"\n#EXTINF:1,\ns.ts\n' % v
+        cases.append(mk("owned:media", t, group="owned:near", meta={"id": "kfv" + v}))
+        for op, args in (("media", []), ("media_fromstr", []), ("media_builder", ["-"])):
+            cases.append(mk(op, t, *args, group="entry-points", meta={"ep": "kfv" + v}))
+        cases.append(mk("owned:master", '#EXTM3U\n#EXT-X-SESSION-KEY:METHOD=SAMPLE-AES,URI="k",KEYFORMAT="f",KEYFORMATVERSIONS=%s\n' % v, group="owned:near"))
+    for t in NEAR_MEDIA:
+        cases.append(mk("owned:media", t, group="owned:near", meta={"id": "near" + str(hash(t))}))
+        for op, args in (("media", []), ("media_fromstr", []), ("media_builder", ["-"])):
+            cases.append(mk(op, t, *args, group="entry-points", meta={"ep": "near" + str(hash(t))}))
+    for t in NEAR_MASTER:
+        cases.append(mk("owned:master", t, group="owned:near"))
     return cases
 
 
@@ -2642,6 +2700,15 @@ def c14_build(ctx):
     # keys
     ivs = [None, "0x000102030405060708090a0b0c0d0e0f", "0X000102030405060708090A0B0C0D0E0F", "000102030405060708090a0b0c0d0e0f", "0x0001", "0x000102030405060708090a0b0c0d0e0g"]
     vers = [None, '"1"', '"1/2/5"', '"1/2/3/4/5/6/7/8/9"', '"1/2/3/4/5/6/7/8/9/10"', '"256"', '"x"']
+    hxs = lambda t: t.encode().hex()
+    # blank = nothing but white space in the Unicode sense (what `str::trim` removes), not only the ASCII blanks
+    blanks = ["", " ", " \t", "\u00a0", "\u3000", "\u0085", "\x0b", "\x0c", " \u00a0 ", "\u2003\u00a0", "\u2028", "\u1680"]
+    nonblank = ["k", " k ", "\u00a0k\u00a0", "\u200b", "\ufeff", "_"]          # zero-width space and BOM are not white space
+    for uri, tagname in itertools.product(blanks + nonblank, ["ExtXKey", "ExtXSessionKey"]):
+        if '"' in uri or "\n" in uri or "\x0b" in uri or "\x0c" in uri or "\u0085" in uri or "\u2028" in uri:
+            continue            # line terminators and quotes cannot stand inside a quoted string of one line
+        pfx = "#EXT-X-KEY:" if tagname == "ExtXKey" else "#EXT-X-SESSION-KEY:"
+        cases.append(mk("tag:" + tagname, pfx + 'METHOD=AES-128,URI="%s"' % uri, group="KEY-text-blank-uri", meta={"exp": uri in nonblank}))
     for method, uri, iv, kv, tagname in itertools.product([None, "AES-128", "SAMPLE-AES", "NONE", "AES-256"], [None, '"k"', '""', '" "'], ivs, vers, ["ExtXKey", "ExtXSessionKey"]):
         attrs = ([("METHOD=" + method)] if method else []) + (["URI=" + uri] if uri else []) + (["IV=" + iv] if iv else []) + (["KEYFORMATVERSIONS=" + kv] if kv else [])
         if tagname == "ExtXKey" and method == "NONE":
@@ -2650,9 +2717,9 @@ def c14_build(ctx):
             exp = method in ("AES-128", "SAMPLE-AES") and uri == '"k"' and iv in (None, ivs[1], ivs[2]) and kv in (None, vers[1], vers[2], vers[3])
         pfx = "#EXT-X-KEY:" if tagname == "ExtXKey" else "#EXT-X-SESSION-KEY:"
         cases.append(mk("tag:" + tagname, pfx + ",".join(attrs), group="KEY-text", meta={"exp": exp}))
-    for method, uri in itertools.product([None, "aes", "saes"], [None, "6b", "", "20", "2009", "206b20"]):
+    for method, uri in itertools.product([None, "aes", "saes"], [None] + [hxs(b) for b in blanks] + [hxs(b) for b in nonblank]):
         toks = (["method=" + method] if method else []) + (["uri=" + uri] if uri is not None else [])
-        exp = method is not None and uri in ("6b", "206b20")          # a blank URI is no URI, for the builder as for the parser
+        exp = method is not None and uri in [hxs(b) for b in nonblank]          # a blank URI is no URI, for the builder as for the parser
         cases.append(mk("build_tag:DecryptionKey", " ".join(toks), group="KEY-builder", meta={"exp": exp}))
     # stream tags
     for bw, uri, hd, res, fr in itertools.product([None, "1", "-1", "x"], [0, 1], [None, "TYPE-0", "NONE", "TYPE-1"], [None, "1x2", "1x", "x"], [None, "25", "-1", "nan"]):
@@ -2854,6 +2921,43 @@ def c18_build(ctx):
         cases.append(mk("build_tag:ExtXSessionData", "id=" + hx(sv if sv else "i") + " value=" + hx(sv) + " lang=" + hx(sv), group="built:strings", meta={"domain": True}))
     for hv in ["00", "ab", "0102ff", "00" * 40]:
         cases.append(mk("build_tag:ExtXDateRange", "id=69 attr=582d41:H" + hv, group="built:client-hex", meta={"domain": True}))
+    # the public constructors that are not builders (`new`, `with_…`, `From<Range>`): what they make must be written and read back
+    # like everything else
+    strs = ["a", "", "x,y", "a=b", "\u65e5\u672c", " lead", "1.5", "0x1F", "NONE", "YES"]
+    U = 2 ** 64 - 1
+    for b in ["00000000", "3f800000", "bf800000", "3fc00000", "41200000", "80000000", "3dcccccd"]:
+        for pr in ("", " precise=0", " precise=1"):
+            cases.append(mk("ctor:ExtXStart", "t=" + b + pr, group="ctor", meta={"domain": True}))
+    for x in strs:
+        for extra in ("", " lang=" + hx(x), " lang=" + hx("en")):
+            cases.append(mk("ctor:ExtXSessionData", "id=" + hx(x or "i") + " value=" + hx(x) + extra, group="ctor", meta={"domain": True}))
+            cases.append(mk("ctor:ExtXSessionData", "id=" + hx(x or "i") + " uri=" + hx(x) + extra, group="ctor", meta={"domain": True}))
+        for what in ("DecryptionKey", "ExtXSessionKey", "ExtXKey"):
+            for m in ("aes", "saes"):
+                cases.append(mk("ctor:" + what, "method=%s uri=%s" % (m, hx(x or "k")), group="ctor", meta={"domain": True}))
+        cases.append(mk("ctor:ExtXDateRange", "id=%s start=%s" % (hx(x), hx("2010-02-19T14:54:23.031+08:00")), group="ctor", meta={"domain": True}))
+        cases.append(mk("ctor:ExtXDateRange", "id=%s start=%s" % (hx("i"), hx(x)), group="ctor", meta={"domain": True}))
+        for ty in ("AUDIO", "VIDEO"):
+            cases.append(mk("ctor:ExtXMedia", "type=%s group=%s name=%s" % (ty, hx(x), hx("n")), group="ctor", meta={"domain": True}))
+            cases.append(mk("ctor:ExtXMedia", "type=%s group=%s name=%s" % (ty, hx("g"), hx(x)), group="ctor", meta={"domain": True}))
+        cases.append(mk("ctor:ExtXMap", "uri=" + hx(x), group="ctor", meta={"domain": True}))
+        cases.append(mk("ctor:ExtXMap", "uri=" + hx(x) + " range=5@0", group="ctor", meta={"domain": True}))
+        if x.strip() == x and x:
+            cases.append(mk("ctor:ExtInf", "dur=1000000000 title=" + hx(x), group="ctor", meta={"domain": True}))
+            cases.append(mk("ctor:ExtXProgramDateTime", "t=" + hx(x), group="ctor", meta={"domain": True}))
+        cases.append(mk("ctor:Codecs", "list=" + hx(x), group="ctor", meta={"domain": True}))
+    cases.append(mk("ctor:Codecs", "", group="ctor", meta={"domain": False}))          # `Codecs::new()`: the empty list is outside the domain (its text is the text of [""]); run for no-panic / agreement only
+    for n in [0, 1, 2, 6, 2 ** 32, U]:
+        cases.append(mk("ctor:StreamData", "bw=%d" % n, group="ctor", meta={"domain": True}))
+        cases.append(mk("ctor:Channels", "n=%d" % n, group="ctor", meta={"domain": True}))
+        cases.append(mk("ctor:ExtXByteRange", "to=%d" % n, group="ctor", meta={"domain": True}))
+    for v in range(1, 8):
+        cases.append(mk("ctor:ExtXVersion", "v=%d" % v, group="ctor", meta={"domain": True}))
+    for d in [0, 1, 999999999, 10 ** 9, 1500000000, 9009000000, 10 ** 15 - 1]:
+        cases.append(mk("ctor:ExtInf", "dur=%d" % d, group="ctor", meta={"domain": True, "ns": d}))
+    for r in ["5@0", "0@0", "5@10", "1@%d" % (U - 1), "%d@0" % U, "0@%d" % U]:
+        cases.append(mk("ctor:ExtXByteRange", "range=" + r, group="ctor", meta={"domain": True}))
+        cases.append(mk("ctor:ExtXMap", "uri=" + hx("i") + " range=" + r, group="ctor", meta={"domain": True}))
     for f in [x for x in G.KEYFORMATS if x] + G.KEYFORMATS_LOOKALIKE + ["a,b", "a=b", "1", "NONE"]:
         cases.append(mk("build_tag:DecryptionKey", "method=aes uri=6b format=" + hx(f), group="built:key-format", meta={"domain": True, "kfv1": True}))
         cases.append(mk("build_tag:DecryptionKey", "method=saes uri=" + hx(f) + " format=" + hx(f) + " versions=1/2", group="built:key-format", meta={"domain": True, "kfv1": True}))
@@ -2870,7 +2974,23 @@ def c18_sweep(ctx):
         chunk = 2**24
         starts = list(range(0, total, chunk))
     lines = []
-    for ty in ("Float", "UFloat"):
+    # the two wrappers, and the two places where a float travels inside something else (EXT-X-START, a client attribute value)
+    carriers = ("Float", "UFloat", "ExtXStart", "Value")
+    full = set()
+    if ctx.quick:
+        # a changed float path in the source (a cast, another parse) is met by the whole domain at once: a two-step rounding
+        # differs from the direct one on a handful of the 2^32 patterns
+        from . import panics as PN
+        d = PN.diff() or {}
+        touched = [f for f, x in d.items() if isinstance(x, dict) and any(re.search(r"cast|f32|f64|parse", t) for t in x.get("appeared", []))]
+        if touched:
+            full = {"ExtXStart", "Value", "Float", "UFloat"}
+            C.log("float-related code changed in %s: sweeping all 2^32 patterns" % ", ".join(touched[:4]))
+    for ty in carriers:
+        if ty in full:
+            for s in range(0, total, 2**24):
+                lines.append(C.req("sweepf32:" + ty, "%d %d" % (s, 2**24)))
+            continue
         for s in starts:
             lines.append(C.req("sweepf32:" + ty, "%d %d" % (s, chunk)))
     outs = C.run_many(C.IMPL, lines, jobs=C.NCPU)
@@ -2905,7 +3025,7 @@ def c18_oracle(ctx, cases, impl, model):
                 fails.append(dict(describe(c.line, a), what="a value in the domain of %s was rejected" % c.op, law="accept"))
             continue
         rr = r.get("R")
-        if rr != "=":
+        if rr != "=" and c.meta.get("domain") is not False:
             k4 = bool(c.meta.get("kfv1")) and 'KEYFORMATVERSIONS="1"' in c.payload.replace(" ", "")
             fails.append(dict(describe(c.line, a), what="%s: parsing the written text gives %s instead of the value" % (c.op, "an error" if rr == "err" else "a different value"), law="round-trip",
                               default_versions_dropped=k4))
@@ -3249,6 +3369,31 @@ def c20_build(ctx):
         cases.append(mk("rt_master", t, group="master-text", meta={"mpair": i}))
         cases.append(mk("build_master", "\n".join(calls), group="master-builder", meta={"mpair": i}))
     cases += c20_setter_twice()
+    # built playlists whose segments never had `keys(..)` called, behind segments with keys (what a user writes for "this one is
+    # not encrypted"): the written text must say so, i.e. re-parse to the same effective keys
+    hxk = lambda t: t.encode().hex()
+    key_tok = lambda u, f=None: "key=aes:%s:-:%s:-" % (hxk(u), hxk(f) if f else "-")
+    shapes = [["k", ""], ["k", "", ""], ["k", "", "k"], ["k", "", "l"], ["", "k", ""], ["k", "l", ""], ["k+f", "", ""], ["k+f", "k", ""], ["k", "NONE", ""], ["", ""], ["k", "", "NONE"]]
+    for shape in shapes:
+        for ms in (None, 3):
+            calls = ["td 10000000000"] + (["ms %d" % ms] if ms is not None else [])
+            for i, sh in enumerate(shape):
+                toks = "dur=1000000000 uri=" + hxk("s%d" % i)
+                if sh == "NONE":
+                    toks += " key=none"
+                elif sh:
+                    for part in sh.split("+"):
+                        toks += " " + (key_tok("k2", "f") if part == "f" else key_tok(part))
+                calls.append("push " + toks)
+            cases.append(mk("build_media", "\n".join(calls), group="keys-never-set", meta={"effective": True}))
+    # the tag builders against the text of the same content: same acceptance (URIs that are blank in the Unicode sense included)
+    hx = lambda t: t.encode().hex()
+    n = 10 ** 6
+    for uri in ["", " ", " \t", "\u00a0", "\u3000", " \u00a0 ", "\u2003\u00a0", "\u1680", "k", " k ", "\u00a0k\u00a0", "\u200b", "\ufeff", "_"]:
+        for method, mt in (("aes", "AES-128"), ("saes", "SAMPLE-AES")):
+            n += 1
+            cases.append(mk("build_tag:DecryptionKey", "method=%s uri=%s" % (method, hx(uri)), group="tag-builder-vs-text", meta={"twice": n}))
+            cases.append(mk("type:DecryptionKey", 'METHOD=%s,URI="%s"' % (mt, uri), group="tag-builder-vs-text", meta={"twice": n}))
     return cases
 
 
@@ -3306,13 +3451,20 @@ def c20_oracle(ctx, cases, impl, model):
         if len(items) == 2 and C.project(items[0][1], {"status", "obs"}) != C.project(items[1][1], {"status", "obs"}):
             d = describe(items[0][0].line, items[0][1])
             d["context_lines"] = [items[1][0].line]
-            fails.append(dict(d, what="%s: calling a setter twice does not give what the last call alone gives" % items[0][0].op, law="setter-last-wins"))
+            what = "builder and text of the same content disagree" if items[0][0].group == "tag-builder-vs-text" else "calling a setter twice does not give what the last call alone gives"
+            fails.append(dict(d, what="%s: %s" % (items[0][0].op, what), law="setter-last-wins" if "twice" in what else "builder-text-agree"))
     for c, a in zip(cases, impl):
         r = C.Resp(a)
         if r.status == "panic":
             fails.append(dict(describe(c.line, a), what="%s panicked on an in-domain call sequence" % c.op, law="no-panic")); continue
         if r.status == "bad-op":
             fails.append(dict(describe(c.line, a), what="harness rejected a generated script", law="harness")); continue
+        if c.meta.get("effective") and r.status == "ok":
+            rr = r.get("R")
+            unmark = lambda o: o.replace("[K0]", "[]")          # "explicitly not encrypted" and "no key" are the same effective keys
+            if rr != "=" and (rr in ("err", "panic", None) or unmark(rr) != unmark(r.obs)):
+                fails.append(dict(describe(c.line, a), what="the text written for a built playlist re-parses to other content (effective keys per segment included): %s" % str(rr)[:200],
+                                  law="built-text-content"))
         if "pair" in c.meta:
             pairs.setdefault(c.meta["pair"], []).append((c, a, r))
         if "mpair" in c.meta:
